@@ -360,6 +360,19 @@ class World:
         return {"tables": self.table_rows(), "blobs": self.blob_listing()}
 
 
+def exc_site(exc: BaseException | None) -> str:
+    """'<ExceptionType>@<repo-relative file>:<function>' of the innermost frame that lies inside the repo."""
+    if exc is None:
+        return "none"
+    import traceback
+    site = "?"
+    repo = str(boot.REPO)
+    for fs in traceback.extract_tb(exc.__traceback__):
+        if fs.filename.startswith(repo):
+            site = f"{fs.filename[len(repo) + 1:]}:{fs.name}"
+    return f"{type(exc).__name__}@{site}"
+
+
 def diff_state(before: dict, after: dict) -> list[str]:
     """Human-readable list of differences between two World.state() values."""
     diffs: list[str] = []
